@@ -219,7 +219,7 @@ func (w *World) genMark() []Op {
 		for i := 0; i < d && n.Parent != nil && n.Parent.Parent != nil; i++ {
 			n = n.Parent
 		}
-		if n == w.m.Genesis {
+		if n == w.m.Genesis || n.MemOpt || (n.Parent != nil && n.Parent.MemOpt) {
 			return nil
 		}
 		return []Op{{K: "mark", A: n.Serial, N: "best-chain"}}
